@@ -321,7 +321,9 @@ func (self Reflect) listSlice(v reflect.Value, onChange OnListValueChange, curre
 						part1 := v.Slice(0, i)
 						part2 := v.Slice(i+1, v.Len())
 						v = reflect.AppendSlice(part1, part2)
-						onChange(v)
+						if onChange != nil {
+							onChange(v)
+						}
 						entries = nil
 						return nil, nil, nil
 					}
